@@ -19,7 +19,7 @@ claim("C02", "DESIGN.md §3 C02",
 
 claim("C01", "DESIGN.md §3 C01",
       "sibling-agreement decision tables + provenance + dominating conditions + locksets over go/ssa (static)",
-      "Static analysis decides the structural agreement between inserter, prover and verifier (hash formulas, audit-path keys, traversal decision tables, balloon glue, hyper batch coordinates, list ownership, hasher locking) on every path of the anchored functions; it does not decide the pruning arithmetic or tree-shape quantification.",
+      "Static analysis decides the structural agreement between inserter, prover and verifier (hash formulas, audit-path keys, traversal decision tables, balloon glue, hyper batch coordinates, list ownership, hasher locking) on every path of the anchored functions; it does not decide the pruning arithmetic or tree-shape quantification. Added after the second mutant round: the provers' collect discipline, no leaf of a bulk dropped, the persisted batch holds the new shortcut.",
       TRUST + "Declined: two-target prover traversal vs verifier arithmetic, hyper push-down/collision depths, 'after any number of insertions'.")
 claim("C03", "DESIGN.md §3 C03",
       "acceptance-condition path enumeration + decision tables + dominating range guards (static)",
@@ -27,75 +27,75 @@ claim("C03", "DESIGN.md §3 C03",
       TRUST + "Declined: rejection over all forks/histories, the (i,j) arithmetic common to both traversals.")
 claim("C04", "DESIGN.md §3 C04",
       "provenance conformance of hash construction sites, codec/encoding checks, decision tables, table wiring, buffer-bound and error-path rules (static)",
-      "Static analysis decides that every hash construction site, position encoding, default-hash table, leaf-value preparation, bulk/single agreement (history), freeze rule, cache/table wiring, hyper batch coordinates, list ownership and cache-rebuild read loop conform to the published construction; it does not compare against a reference implementation on values.",
+      "Static analysis decides that every hash construction site, position encoding, default-hash table, leaf-value preparation, bulk/single agreement (history), freeze rule, cache/table wiring, hyper batch coordinates, list ownership and cache-rebuild read loop conform to the published construction; it does not compare against a reference implementation on values. Also: no leaf of a bulk dropped, persisted batch = written batch, a repeated key keeps its first value, and the state-transfer filter skips exactly what the follower has.",
       TRUST + "Declined: equality with a reference on all sequences, batching-independence of the hyper push-down as a whole, eviction/restart independence as value statements.")
 claim("C10", "DESIGN.md §3 C10",
       "type-level lockset analysis (guarded-by table, entry locksets over the VTA call graph), unlock-on-all-exits, escape of guarded buffers (static)",
-      "Static analysis decides lock discipline: every access to a guarded field happens under its mutex on every production call path, stateful hashers only under exclusive locks, every lock released on every exit, goroutines joined, cache reads return copies. It does not decide linearizability. The apply-then-persist window (K1) is reported as a known finding.",
+      "Static analysis decides lock discipline: every access to a guarded field happens under its mutex on every production call path, stateful hashers only under exclusive locks, every lock released on every exit, goroutines joined, cache reads return copies. It does not decide linearizability. The apply-then-persist window (K1) is reported as a known finding. Also: no method re-acquires its receiver's lock through another method of the same receiver; HTTP handlers write only to their own locals (no request state shared through the factory's variables).",
       TRUST + "Locks identified at type level (one instance per node). Declined: 'never mixes state' over all interleavings, race-detector exploration.")
 
 claim("C05", "DESIGN.md §3 C05",
       "provenance + lockset + finite order-model evaluation of the replay filter's decision table + must-abort error paths (static)",
-      "Static analysis decides the version-assignment mechanism: counter written under the exclusive lock, advanced by exactly the number of events, per-index agreement in bulk paths, replay filter exact on every ordering of (persisted, entry) index, apply protocol (guard, new state, publish after write, failures abort), RefreshVersion derivation. It does not decide gaps across crash/leader-change schedules.",
+      "Static analysis decides the version-assignment mechanism: counter written under the exclusive lock, advanced by exactly the number of events, per-index agreement in bulk paths, replay filter exact on every ordering of (persisted, entry) index, apply protocol (guard, new state, publish after write, failures abort), RefreshVersion derivation. It does not decide gaps across crash/leader-change schedules. Also: the proposer tests the FSM's verdict before using its value, the store's batch write is one write, version fields are bound field-for-field across the wire conversion, a state transfer is loaded until io.EOF or fails.",
       TRUST + "Declined: absence of gaps over restarts/leader changes (raft, RocksDB).")
 claim("C07", "DESIGN.md §3 C07",
       "must-pass-through / exactly-one-write structural rules, provenance of the batch, finite order-model of the replay filter, error-discipline rules (static)",
-      "Static analysis decides the atomic-apply mechanism (one Mutate per entry containing tree mutations and applied index, metadata, publish-after-write, abort on failure), the single-writer rule, the back-end batch shape, the replay filter, start-up ordering and the recovery path's error discipline and cache rebuild. It does not decide behaviour at arbitrary crash instants.",
+      "Static analysis decides the atomic-apply mechanism (one Mutate per entry containing tree mutations and applied index, metadata, publish-after-write, abort on failure), the single-writer rule, the back-end batch shape, the replay filter, start-up ordering and the recovery path's error discipline and cache rebuild. It does not decide behaviour at arbitrary crash instants. Also: one recovery level for writers and rebuild, cache tiles persisted whenever cached, no store write bypasses the write-ahead log, the transfer load succeeds only on io.EOF.",
       TRUST + "Declined: SIGKILL instants, torn writes, durability of acknowledged snapshots.")
 claim("C09", "DESIGN.md §3 C09",
       "must-call-after (interprocedural), error discipline, finite order-model of the transfer validator's decision table, provenance of request parameters (static)",
-      "Static analysis decides that Restore refreshes every in-memory structure derived from the store after a transfer, that transfer errors propagate, that the leader's validator refuses gaps / skips applied batches / accepts the rest on every ordering of (previous,new,last), and the wiring of metadata and request parameters. It does not decide convergence over schedules.",
+      "Static analysis decides that Restore refreshes every in-memory structure derived from the store after a transfer, that transfer errors propagate, that the leader's validator refuses gaps / skips applied batches / accepts the rest on every ordering of (previous,new,last), and the wiring of metadata and request parameters. It does not decide convergence over schedules. Also: the transfer request reports n.state.BalloonVersion (in Restore's region), transferred batches go through the write-ahead log, the load succeeds only on io.EOF.",
       TRUST + "Declined: convergence for all down/up/compaction schedules, WAL iterator semantics.")
 
 claim("C06", "DESIGN.md §3 C06",
       "interprocedural determinism taint over provenance terms from FSM.Apply (VTA reachability), provenance of the proposer/apply payload, join discipline, order-model replay filter (static)",
-      "Static analysis decides that the replicated apply path is deterministic and local: no clock/random/environment/map-order value reaches a hash, a mutation, a cache entry, a snapshot or the FSM state; digests are computed once by the proposer; queries are local; helper goroutines are joined before their results are read; cache rebuild is a function of the store. It does not decide equality of replicas over fault sequences.",
+      "Static analysis decides that the replicated apply path is deterministic and local: no clock/random/environment/map-order value reaches a hash, a mutation, a cache entry, a snapshot or the FSM state; digests are computed once by the proposer; queries are local; helper goroutines are joined before their results are read; cache rebuild is a function of the store. It does not decide equality of replicas over fault sequences. Also: a replica rejoining by state transfer asks for (n.state.BalloonVersion), is sent (validator order model) and loads (stream error forwarded, success only on io.EOF) exactly what it lacks; every command is decoded into a fresh destination.",
       TRUST + "Declined: replica equality across stop/restart/transfer sequences (raft).")
 claim("C08", "DESIGN.md §3 C08",
       "handle pairing (create→release on all paths or escape to owner), owner-Close completeness, must-pass shutdown order, abort reachability, rebuild-on-open must-calls (static)",
-      "Static analysis decides the release discipline (every DB-bound handle released on all paths, owners' Close complete, node shutdown releases everything with the database last, no explicit abort on the shutdown path) and the rebuild-on-open obligations and cache/table wiring. It does not decide identity of later snapshots.",
+      "Static analysis decides the release discipline (every DB-bound handle released on all paths, owners' Close complete, node shutdown releases everything with the database last, no explicit abort on the shutdown path) and the rebuild-on-open obligations and cache/table wiring. It does not decide identity of later snapshots. Also: one recovery level for writers and rebuild, tiles persisted whenever cached, the persisted FSM state is the applied one, Close waits for raft's shutdown.",
       TRUST + "Declined: snapshot/proof identity after reopen at every prefix; RocksDB's own reference counting.")
 
 claim("C11", "DESIGN.md §3 C11",
       "must-respond on all handler paths (with sanitizer summaries), guard-on-call-chain dominance, unlock-on-all-exits, who-may-call, list-discipline and LRU rules (static)",
-      "Static analysis decides that every registered handler answers on every path, that undecodable bodies are answered 4xx, that the degenerate inputs named by the property (wrong digest length, empty bulk, missing parameter, absent version, out-of-range versions) meet a guard on every call chain before code that aborts, that raft.Apply has one producer, that request-path locks are always released, and two structural conditions whose violation makes replicated commands un-applicable (de-duplicating list insertion, true-LRU write cache). It does not decide panic-freedom for arbitrary bodies.",
+      "Static analysis decides that every registered handler answers on every path, that undecodable bodies are answered 4xx, that the degenerate inputs named by the property (wrong digest length, empty bulk, missing parameter, absent version, out-of-range versions) meet a guard on every call chain before code that aborts, that raft.Apply has one producer, that request-path locks are always released, and two structural conditions whose violation makes replicated commands un-applicable (de-duplicating list insertion, true-LRU write cache). It does not decide panic-freedom for arbitrary bodies. Also: the FSM's verdict is tested before its value is asserted (D10), the version clamp is decided against version-1, every event of the guarded bulk is encoded, handlers keep request state local.",
       TRUST + "Declined: totality over all bodies, oversized bodies, liveness after errors.")
 claim("C12", "DESIGN.md §3 C12",
       "recover-boundary check, guard dominance on parsed tokens and decoded pointers, error discipline, finite order-model of the verifier's base case + structural descent (static)",
-      "Static analysis decides that the three proof verifiers turn every panic below them into a rejection, that audit-path keys and decoded answers are guarded before use, that decode failures end the call, and that verifier traversals terminate (order-test base case exact on every ordering of node height vs. forged path height; structural descent). It does not bound memory.",
+      "Static analysis decides that the three proof verifiers turn every panic below them into a rejection, that audit-path keys and decoded answers are guarded before use, that decode failures end the call, and that verifier traversals terminate (order-test base case exact on every ordering of node height vs. forged path height; structural descent). It does not bound memory. Also: each pointer-typed part of a proof has its own dominating nil test, the recover handler does not panic again, the client's request loops make progress on every way round (shared with C20).",
       TRUST + "recover() semantics of Go. Declined: memory bounds; malformed gossip to the agents.")
 
 claim("C13", "DESIGN.md §3 C13",
       "field-binding tables over provenance terms, codec agreement (separator/order/width, type byte, shared handles), struct-completeness and buffer-alias rules (static)",
-      "Static analysis decides writer/reader agreement of every codec pair: each constructor/conversion binds every field to the source of the corresponding meaning, the audit-path key codec agrees on separator/order/width, commands carry one type byte and codecs share handles, encoded bytes never alias recycled buffers, wire structs are complete and Snapshot types identical. It does not decide value-level round trips.",
+      "Static analysis decides writer/reader agreement of every codec pair: each constructor/conversion binds every field to the source of the corresponding meaning, the audit-path key codec agrees on separator/order/width, commands carry one type byte and codecs share handles, encoded bytes never alias recycled buffers, wire structs are complete and Snapshot types identical. It does not decide value-level round trips. Also: every command is decoded into a fresh destination (msgpack neither truncates nor reallocates a reused one).",
       TRUST + "encoding/json and msgpack round-trip the field types. Declined: verdict equality for all genuine proofs and magnitudes.")
 claim("C14", "DESIGN.md §3 C14",
       "registry agreement by decision-table evaluation on every constant, prefix-discipline dominance in tree-iteration callbacks, handle-selection provenance, batch-shape and absence rules (static)",
-      "Static analysis decides the isolation mechanics of both back-ends: distinct names/prefixes per table constant and column families in constant order, B+tree keys prefixed in / stripped out and every iteration callback bounded by the table prefix, RocksDB methods using the handle of their own table, one batch per Mutate, absence signalled by ErrKeyNotFound decided by nil-ness. It does not decide equivalence with a map model.",
+      "Static analysis decides the isolation mechanics of both back-ends: distinct names/prefixes per table constant and column families in constant order, B+tree keys prefixed in / stripped out and every iteration callback bounded by the table prefix, RocksDB methods using the handle of their own table, one batch per Mutate, absence signalled by ErrKeyNotFound decided by nil-ness. It does not decide equivalence with a map model. Also: keys/values copied out of native slices into buffers sized by the same slice; every batch handed to db.Write is created in the same call.",
       TRUST + "btree iteration order; column-family isolation. Declined: map-model equivalence over sequences; durability.")
 claim("C15", "DESIGN.md §3 C15",
       "provenance of keys/handles/values per LogStore/StableStore method, must-write and no-memo rules (static)",
-      "Static analysis decides table isolation, big-endian index keys, iterator-derived First/LastIndex, half-open translation and unconditional write of DeleteRange, batch completeness of StoreLogs and codec handle sharing of the raft log store. The cgo wrapper's bodies are outside the analysis.",
+      "Static analysis decides table isolation, big-endian index keys, iterator-derived First/LastIndex, half-open translation and unconditional write of DeleteRange, batch completeness of StoreLogs and codec handle sharing of the raft log store. The cgo wrapper's bodies are outside the analysis. Also: the bytes stored are the encoding of the raft.Log itself (not of a projection), batches are per call, read options see range deletions, native slices copied in full.",
       TRUST + "the rocksdb wrapper returns nil exactly for absent keys. Declined: map-model behaviour, reopen survival.")
 claim("C16", "DESIGN.md §3 C16",
       "provenance of recorded metadata and identifiers, lockset at the backup call, parse-width rule, listing-loop and routing rules (static)",
-      "Static analysis decides QED's plumbing around RocksDB's backup engine: recorded version = Version()-1 under the node lock, identifiers passed through unchanged and untruncated, complete per-index listing, routing, cache rebuild on open. It does not decide the content of a backup.",
+      "Static analysis decides QED's plumbing around RocksDB's backup engine: recorded version = Version()-1 under the node lock, identifiers passed through unchanged and untruncated, complete per-index listing, routing, cache rebuild on open. It does not decide the content of a backup. Also: recovery-level tiles are persisted whenever cached and at the level the rebuild reads; a restore does not keep the directory's old write-ahead logs.",
       TRUST + "RocksDB backup engine semantics. Declined: restored content and continuation at v+1.")
 claim("C17", "DESIGN.md §3 C17",
       "who-may-send, per-iteration-allocation, ordering (flush test before append), must-replace-after-publish, provenance of signed bytes, escape of the batch (static)",
-      "Static analysis decides the hand-off and batching mechanics: single producer sending one distinct copy per snapshot, flush-if-full test preceding the append with a fresh batch on the full edge and after every publish, conservation of received snapshots, non-empty timer flush, signature over the whole snapshot with no shared scratch state, goroutine-local batch, key use. It does not decide timing-dependent loss/duplication.",
+      "Static analysis decides the hand-off and batching mechanics: single producer sending one distinct copy per snapshot, flush-if-full test preceding the append with a fresh batch on the full edge and after every publish, conservation of received snapshots, non-empty timer flush, signature over the whole snapshot with no shared scratch state, goroutine-local batch, key use. It does not decide timing-dependent loss/duplication. Also: the message bus hands every published message over with a blocking send, the snapshot type has no formatter method that would change what is signed, the signer constructor succeeds only after its test verification.",
       TRUST + "ed25519; channel semantics. Declined: all arrival timings; cryptographic unforgeability.")
 claim("C18", "DESIGN.md §3 C18",
       "dominating TTL guard + ordering, guarded effects and must-record in the processor, provenance of the exclusion list, lockset guard table, nil-guard rule (static)",
-      "Static analysis decides the structural conditions of bounded, once-only, never-self-addressed gossip: strict TTL>0 guard with one unconditional decrement before encoding, effects only on the not-processed edge with the digest recorded at lookup time, self and source excluded by name before selection, topology map under its mutex, nil-tested peer lists. It does not decide network-level termination.",
+      "Static analysis decides the structural conditions of bounded, once-only, never-self-addressed gossip: strict TTL>0 guard with one unconditional decrement before encoding, effects only on the not-processed edge with the digest recorded at lookup time, self and source excluded by name before selection, topology map under its mutex, nil-tested peer lists. It does not decide network-level termination. Also: the cache option installs a cache on every path, each message is decoded into its own batch, every gossip lock is released on every exit.",
       TRUST + "memberlist callbacks run on its own goroutines. Declined: dissemination termination, all interleavings.")
 claim("C19", "DESIGN.md §3 C19",
       "provenance of request/verification arguments, must-verify on all successful paths, alert-edge rule, cooperating-site type agreement, guarded-forward rule (static)",
-      "Static analysis decides the wiring of auditor, monitor and publisher: proof requested and verified for the right snapshots with the right digests on every successful path, alert exactly on the failing edge and on refused requests (error type named by the auditor = type built by the client), publisher forwards on cache miss keyed by signature with the key recorded first. It does not decide the iff over all tamperings.",
+      "Static analysis decides the wiring of auditor, monitor and publisher: proof requested and verified for the right snapshots with the right digests on every successful path, alert exactly on the failing edge and on refused requests (error type named by the auditor = type built by the client), publisher forwards on cache miss keyed by signature with the key recorded first. It does not decide the iff over all tamperings. Also: each task works on the batch of its own message, alerts are handed over with a blocking send, the auditor's query carries the version whenever one is given (decided by presence).",
       TRUST + "verdicts as decided by C02/C03. Declined: iff over every tampering; redelivery schedules.")
 claim("C20", "DESIGN.md §3 C20",
       "dominating liveness/kind guards at every return, loop-progress classification of every back edge (one-shot flag, bounded counter, shrinking set), who-may-call for writes, locksets (static)",
-      "Static analysis decides the client's selection guards (no dead or non-permitted endpoint handed out), bounded round-robin scans, writes only via callPrimary to topology.Primary(), a progress argument on every way round every loop of callPrimary/callAny/discover/retrier, leader-as-primary on topology updates, and lock discipline. It does not decide convergence or fairness.",
+      "Static analysis decides the client's selection guards (no dead or non-permitted endpoint handed out), bounded round-robin scans, writes only via callPrimary to topology.Primary(), a progress argument on every way round every loop of callPrimary/callAny/discover/retrier, leader-as-primary on topology updates, and lock discipline. It does not decide convergence or fairness. Also: discovery selects its node with preference Any, a primary confirmed by a server answer is installed as a fresh endpoint on every path.",
       TRUST + "Declined: convergence after leader change, fairness of rotation.")
 
 NOT_YET = "check not built yet (static rules for this property are planned in DESIGN.md §3)"
@@ -134,7 +134,7 @@ def main():
             "name": "qedlint",
             "path": "/verif/qedlint",
             "serves_properties": sorted(CLAIMED),
-            "kind_free_text": "repository-specific static analysis over go/types + go/ssa + VTA call graph (provenance terms, dominating conditions, path enumeration, must-pass-through, locksets, handle pairing, taint)",
+            "kind_free_text": "repository-specific static analysis over go/types + go/ssa + VTA call graph (provenance terms, dominating conditions, path enumeration, must-pass-through, locksets, handle pairing, taint), helper-transparent (regions, term expansion) and rename-robust (roles baseline)",
         }],
         "checks": checks,
         "not_applicable": na,
